@@ -242,6 +242,44 @@ def run(repo: Repo, chk: Check) -> None:
                what=f'_validate on a string that {what}: {"accepted without base58_decode or rejected" if want else "not rejected (or rejected with a non-ValueError)"} '
                     f'- validators must test the kind by the START of the string and always run the checksum decode')
 
+    # a TEXT argument is validated as the text it is: its characters are what is tested for the prefix and handed to base58_decode.  The shared
+    # normaliser scrub_input reads a str as hexadecimal first, so a str must be encoded before it goes through it (the hex spelling of a valid
+    # string is not that string)
+    class _TextHooks(Hooks):
+        def inline(self, it, fi):
+            return fi.name == '_validate'
+
+        def isinstance(self, it, obj, classes):
+            from ..absint import Builtin
+            names = {c.name for c in classes if isinstance(c, Builtin)}
+            if isinstance(obj, Sym) and obj.name == 'text':
+                return 'str' in names
+            if isinstance(obj, App) and obj.op in ('chars-of', 'hex-or-ascii-of'):
+                return bool(names & {'bytes', 'bytearray'})
+            return NotImplemented
+
+        def call(self, it, callee, args, kwargs, node):
+            from ..absint import FuncRef
+            if isinstance(callee, App) and callee.op == 'attr' and isinstance(callee.args[0], Sym) and callee.args[0].name == 'text' and callee.args[1] == 'encode':
+                return App('chars-of', callee.args[0])
+            if isinstance(callee, FuncRef) and callee.fi is not None and callee.fi.name == 'scrub_input':
+                x = args[0]
+                return App('hex-or-ascii-of', x) if isinstance(x, Sym) else x   # bytes pass through; a str is read as hex when it parses as hex
+            if isinstance(callee, FuncRef) and callee.fi is not None and callee.fi.name == 'base58_decode':
+                it.event('decoded', args[0])
+                return App('decoded')
+            if isinstance(callee, App) and callee.op == 'attr' and callee.args[1] == 'startswith':
+                it.event('prefix-tested-on', callee.args[0])
+                return it.choose(2) == 0
+            return NotImplemented
+
+    rt = Interp(repo, _TextHooks(), max_depth=1).run_function(v, [Sym('text', 'str'), [b'AA', b'BB']])
+    tested = sorted({vrepr(e[1]) for p in rt for e in p.events if isinstance(e, tuple) and e[0] in ('prefix-tested-on', 'decoded')})
+    chk.ob('R-FLOW', f'{ENC}._validate', tested == ['chars-of($text)'], 'a str argument is validated as its own characters (prefix test and base58_decode)', v.loc,
+           {'validated_value': tested},
+           what=f'_validate tests / decodes {tested} for a str argument instead of the characters of the string: the hexadecimal spelling of a valid encoding '
+                '(or any text that happens to parse as hex) is validated as the bytes it spells, so is_pkh("747a31...") is True while base58_decode of that text fails')
+
     # call sites of base58_encode with a statically known payload length
     sites = known = 0
     for fi in repo.iter_functions('pytezos.'):
@@ -275,6 +313,12 @@ def run(repo: Repo, chk: Check) -> None:
     chk.minimum('base58_encode call sites', sites, 25)
     chk.minimum('base58_encode call sites with static length', known, 15)
     chk.exhaustive = True
+
+    # ---- memory across calls (shared rule, sa/statelint.py) ----------------------------------------------------------------------------------
+    chk.set_clause('C09.M')
+    from ..statelint import check_memory
+    check_memory(repo, chk, ['pytezos.crypto.encoding.'],
+                 'an encoding chosen for one (prefix, length) is reused for another payload length')
 
 
 def _tail_only(p) -> bool:
